@@ -55,7 +55,7 @@ def main():
                 "category": level,
                 "text": getattr(scn, "LEVEL_TEXT", None) or (
                     ("The stated fault/state grid is enumerated completely in every run; beyond the grid, seeded sampling. " if level == "fault_enumeration" else
-                     "Seeded search over schedules, faults and generated inputs; evidence, not proof. ") + scn.RULE[:400]),
+                     "Seeded search over schedules, faults and generated inputs; evidence, not proof. ") + scn.RULE),
                 "design_ref": "DESIGN.md section 5 " + p,
             },
             "level_note": "Trusted base: simkit (keyed choice tape, socket/ssl seam, reference RFC 5804 server and its strict decoder, independent Sieve reader) and our reading of the RFCs; only what the generated runs reach is covered. " + "; ".join(getattr(scn, "ASSUMPTIONS", [])),
